@@ -1244,7 +1244,7 @@ def gen_cases(tier, seed, search=False):
         idx += 1
 
 
-def random_case(crng, xlsx_share=0.2, force_mem=False):
+def random_case(crng, xlsx_share=0.2, force_mem=False, force_default_roots=False):
     n = crng.choice([1, 2, 3, 3, 4, 4, 5, 6])
     mem = (crng.random() < 0.35) or force_mem
     kinds = []
@@ -1293,6 +1293,8 @@ def random_case(crng, xlsx_share=0.2, force_mem=False):
             if crng.random() < 0.5:
                 extra.append((i, ("BAD", "sibling")))
     roots_mode = crng.choice(["default", "folder", "file", "file", "two", "file", "two", "empty"])
+    if force_default_roots:
+        root_folder, roots_mode = True, "default"        # `roots` left at its default: the root folder is the root
     start = crng.choice([None, None, "in_", "(in|set)_", "(?!x_)"])
     case = build_case(crng, n, es, folders=folders, kinds=kinds, root_folder=root_folder,
                       roots_mode=roots_mode, start_pattern=start,
@@ -1510,6 +1512,40 @@ def dispatch_stream(tier, seed, out, ops, pend, only=None):
         one(names, spec, k)
 
 
+def warm_up(scratch):
+    """earlier uses of the loader in this process, judged by nothing: a default-roots load run to exhaustion, one
+    abandoned after its first block, one that fails (default tracker, a file including itself), and one with
+    explicit roots and a shared protocol dict — so that whatever is judged afterwards is a SECOND use"""
+    from pdtable.io.load import load_files
+    root = Path(scratch) / "warmup"
+    shutil.rmtree(root, ignore_errors=True)
+    (root / "sub").mkdir(parents=True)
+    tab = "**w{0};\nall\nc\n-\n1\n\n"
+    (root / "in_a.csv").write_text(tab.format("a") + "***include\nsub/in_b.csv\n")
+    (root / "sub" / "in_b.csv").write_text(tab.format("b"))
+    loop = root / "loop"
+    loop.mkdir()
+    (loop / "in_l.csv").write_text(tab.format("l") + "***include\nin_l.csv\n")
+    protocols = {}
+    with warnings.catch_warnings():
+        warnings.simplefilter("ignore")
+        for kind in ("exhaust", "abandon", "fail", "explicit"):
+            try:
+                if kind == "exhaust":
+                    list(load_files(root_folder=root))
+                elif kind == "abandon":
+                    g = load_files(root_folder=root)
+                    next(g)
+                    g.close()
+                elif kind == "fail":
+                    list(load_files(root_folder=loop))
+                else:
+                    list(load_files([str(root / "in_a.csv")], additional_protocol_loaders=protocols))
+            except Exception:  # noqa — the warm-up judges nothing
+                pass
+    shutil.rmtree(root, ignore_errors=True)
+
+
 def gen_histories(tier, seed, search=False):
     """two or three consecutive load_files calls in one process that are handed the SAME
     additional_protocol_loaders dict object, over different scratch trees / roots / root_folder settings /
@@ -1518,8 +1554,9 @@ def gen_histories(tier, seed, search=False):
     for k in range(n):
         crng = make_rng(seed, f"C16:h:{k}")
         calls = []
+        # every third history: all calls leave `roots` at its default (state the library may keep between such calls)
         for j in range(crng.choice([2, 2, 3])):
-            c = random_case(crng, xlsx_share=0.1, force_mem=True)
+            c = random_case(crng, xlsx_share=0.1, force_mem=True, force_default_roots=(k % 3 == 0))
             c["gen"] = {"history": k, "call": j}
             calls.append(c)
         yield calls
@@ -1566,6 +1603,7 @@ def run(tier, seed, model_ok, translator, search=False):
     scratch = Path(tempfile.mkdtemp(prefix="c16-")).resolve()
     ops, pend = [], []
     try:
+        warm_up(scratch)         # everything below is at least the second use of the loader in this process
         order = probe_order(scratch)
         out.count("worklist_discipline:" + "/".join(order[k] for k in ("pop", "children", "lines")))
         out.notes.append(f"observed order of work (not part of the property, handed to the model): {order}")
@@ -1607,6 +1645,8 @@ def run(tier, seed, model_ok, translator, search=False):
             out.nontrivial.add(hash(repr([c["files"] for c in calls])))
             out.count("history_calls", len(calls))
             out.count("histories:" + "/".join("rooted" if c["root_folder"] else "unrooted" for c in calls))
+            if sum(1 for c in calls if c["roots"] is None) >= 2:
+                out.count("histories_with_two_or_more_default_roots_calls")
             if len({c["start_pattern"] for c in calls}) > 1:
                 out.count("histories_with_differing_name_pattern")
             shutil.rmtree(base, ignore_errors=True)
@@ -1635,6 +1675,12 @@ def run(tier, seed, model_ok, translator, search=False):
 
 def replay(rep):
     case = rep.get("input") or {}
+    wscratch = Path(tempfile.mkdtemp(prefix="c16w-")).resolve()
+    try:
+        # a failure may need state an earlier load left behind in the library: recreate earlier uses first
+        warm_up(wscratch)
+    finally:
+        shutil.rmtree(wscratch, ignore_errors=True)
     if "dispatch" in case:
         o = Outcome()
         dispatch_stream("quick", 0, o, None, None, only=case["dispatch"])
